@@ -1,0 +1,31 @@
+//go:build verif && (verif_all || verif_c12)
+
+package collect
+
+import "github.com/honeycombio/refinery/sample"
+
+// Export-only wrappers for the verification harness (property C12, reload ordering). No behaviour.
+
+// VerifC12ReloadConfigs runs the collector's config-reload handler synchronously.
+func (i *InMemCollector) VerifC12ReloadConfigs() { i.reloadConfigs() }
+
+// VerifC12HandleReload runs the statements of worker w's reload branch if (and only if) a reload
+// signal is pending on its channel, and reports whether one was.
+func (i *InMemCollector) VerifC12HandleReload(w int) bool {
+	worker := i.workers[w]
+	select {
+	case <-worker.reload:
+	default:
+		return false
+	}
+	clear(worker.datasetSamplers)
+	if worker.sampleCache != nil {
+		worker.sampleCache.Resize(i.Config.GetSampleCacheConfig())
+	}
+	return true
+}
+
+// VerifC12WorkerSampler returns the sampler worker w has cached for the sampler key (nil: none).
+func (i *InMemCollector) VerifC12WorkerSampler(w int, key string) sample.Sampler {
+	return i.workers[w].datasetSamplers[key]
+}
